@@ -154,6 +154,7 @@ def te_norm(msg):
 
 # ---------------------------------------------------------------- oracle
 def oracle_typed(c, obs):
+    if c['w'] == 2: return oracle_ls(c, obs)
     name = 'PrefixSid' if c['w'] == 0 else 'TunnelEncap'
     if obs == [-1]: return 'panic in attr_from_api of a %s message' % name
     if obs[0] == 0: return None
@@ -294,11 +295,12 @@ def enum_tunnel_encap():
 
 
 def enum_typed():
-    return enum_prefix_sid() + enum_tunnel_encap()
+    return enum_prefix_sid() + enum_tunnel_encap() + enum_ls_attr()
 
 
 # ---------------------------------------------------------------- random messages
 def gen_typed_case(rng):
+    if rng.random() < 0.3: return gen_ls_case(rng)
     if rng.random() < 0.4:
         def structs():
             return [st(*[rng.choice((0, 1, 16, 64, 255, 256)) if rng.random() < 0.1 else rng.randrange(129) for _ in range(6)]) for _ in range(rng.randrange(3))]
@@ -352,6 +354,220 @@ def gen_typed_case(rng):
     return {'k': 9, 'w': 1, 'msg': msg}
 
 
+# ---------------------------------------------------------------- LsAttribute (w = 2)
+U24, U20 = 0xffffff, 0xfffff
+NODE0 = [S(''), [], S(''), S(''), [], [], [], [], []]
+LINK0 = [S(''), S(''), S(''), S(''), S(''), 0, 0, 0, [], 0, 0, [], 0, [], [], 0, 0, 0, 0, 0, 0]
+PFX0 = [[], [], 0, []]
+
+
+def node(**kw):
+    n = [list(x) if isinstance(x, list) else x for x in NODE0]
+    for k, v in kw.items(): n[{'name': 0, 'flags': 1, 'rid': 2, 'rid6': 3, 'area': 4, 'opaque': 5, 'srcap': 6, 'algos': 7, 'srlb': 8}[k]] = v
+    return n
+
+
+LINK_IX = {'name': 0, 'lrid': 1, 'lrid6': 2, 'rrid': 3, 'rrid6': 4, 'admin': 5, 'te': 6, 'igp': 7, 'opaque': 8, 'bw': 9, 'rbw': 10, 'unres': 11, 'adj': 12,
+           'srlgs': 13, 'endx': 14, 'd_anom': 15, 'delay': 16, 'mm_anom': 17, 'dmin': 18, 'dmax': 19, 'var': 20}
+
+
+def link(**kw):
+    n = [list(x) if isinstance(x, list) else x for x in LINK0]
+    for k, v in kw.items(): n[LINK_IX[k]] = v
+    return n
+
+
+def pfx(**kw):
+    n = [list(x) if isinstance(x, list) else x for x in PFX0]
+    for k, v in kw.items(): n[{'flags': 0, 'opaque': 1, 'sid': 2, 'sids': 3}[k]] = v
+    return n
+
+
+def ls(node_=None, link_=None, pfx_=None, bps=None, extra=0): return [node_ or [], link_ or [], pfx_ or [], bps or [], extra]
+
+
+def _ip4_ok(b):
+    try:
+        t = bytes(b).decode('ascii')
+    except UnicodeDecodeError:
+        return False
+    p = t.split('.')
+    return len(p) == 4 and all(q.isdigit() and len(q) <= 3 and (q == '0' or not q.startswith('0')) and int(q) < 256 for q in p)
+
+
+def _ip6_ok(b):
+    import ipaddress
+    try:
+        t = bytes(b).decode('ascii')
+        if '%' in t or '/' in t: return False
+        ipaddress.IPv6Address(t)
+        return True
+    except Exception:
+        return False
+
+
+def _ranges_bad(rs):
+    for b, e in rs:
+        if b > U20: return 'SR range begins at %d (beyond a 20-bit label)' % b
+        if e < b: return 'SR range [%d, %d] ends before it begins' % (b, e)
+        if e - b + 1 > U24: return 'SR range of %d values' % (e - b + 1)
+    return None
+
+
+def ls_must_refuse(msg):
+    """why the message cannot be stored faithfully, or None"""
+    n, l, p, b, extra = expand(msg)
+    if extra == 1 or (extra == 2 and n) or (extra == 3 and p): return 'a part the converter has no encoding for (%s)' % {1: 'SRv6 SID', 2: 'flex-algo definition', 3: 'flex-algo prefix metric'}[extra]
+    if n:
+        if n[2] and not _ip4_ok(n[2]): return 'node router id that is not an IPv4 address'
+        if n[3] and not _ip6_ok(n[3]): return 'node router id that is not an IPv6 address'
+        if n[6]:
+            w = _ranges_bad(n[6][2])
+            if w: return w
+        if n[8]:
+            w = _ranges_bad(n[8][0])
+            if w: return w
+    if l:
+        for ix, ok in ((1, _ip4_ok), (2, _ip6_ok), (3, _ip4_ok), (4, _ip6_ok)):
+            if l[ix] and not ok(l[ix]): return 'link router id that is not an address'
+        if l[7] > U24: return 'IGP metric %d' % l[7]
+        if len(l[11]) not in (0, 8): return '%d unreserved bandwidth values' % len(l[11])
+        if l[12] > U20: return 'adjacency SID %d (a label)' % l[12]
+        for ix in (16, 18, 19, 20):
+            if l[ix] > U24: return 'delay %d beyond 24 bits' % l[ix]
+        x = l[14]
+        if x:
+            if x[0] > 0xffff or any(v > 255 for v in x[1:4]): return 'End.X SID field out of range'
+            if any(not _ip6_ok(s) for s in x[4]): return 'End.X SID that is not an IPv6 address'
+            if x[5] and any(v > 255 for v in x[5]): return 'SID structure length out of range'
+    if p:
+        if p[3]:
+            for a, f, s in p[3]:
+                if a > 255 or f > 255: return 'prefix SID algorithm / flags out of range'
+                if f & 0x80 and s > U20: return 'prefix SID label %d' % s
+        elif p[2] > U20: return 'prefix SID label %d' % p[2]
+    if b:
+        for s in b:
+            if s:
+                if s[1] > 255: return 'peer SID weight %d' % s[1]
+                if s[0] and s[0][0] and s[2] > U20: return 'peer SID label %d' % s[2]
+    return None
+
+
+def oracle_ls(c, obs):
+    if obs == [-1]: return 'panic in attr_from_api of an LsAttribute message'
+    if obs[0] == 0: return None
+    _, bytes_, dec, relist, listed, code, flags = obs
+    if dec == [-1]: return 'the stored LS attribute value panics its decoder'
+    if relist == [-1] or listed == [-1]: return 'the stored LS attribute value panics when listed / added again'
+    why = ls_must_refuse(c['msg'])
+    if why: return 'an LsAttribute message that cannot be stored faithfully was accepted: ' + why
+    n = bytes_[1] if bytes_ and bytes_[0] == -7 else len(bytes_)
+    if n > 65535: return 'an LS attribute value of %d octets was accepted' % n
+    if (code, flags) != (29, 0x80): return 'stored as attribute type %d flags %#x' % (code, flags)
+    if relist != 0: return 'the stored LS attribute value is %s when listed and added again' % ('refused' if relist == 2 else 'changed')
+    if dec != 1: return 'the stored LS attribute value is not one its decoder reads back to the same octets'
+    return None
+
+
+def enum_ls_attr():
+    o = []
+    A = lambda cls, msg: o.append(ty('lsattr:' + cls, 2, msg))
+    A('empty', ls()); A('empty', ls(node(), link(), pfx(), [[], [], []])); A('empty', ls(node()))
+    for e in (1, 2, 3): A('unsupported_part', ls(node(name=S('r1')), None, pfx(sid=5), None, e))
+    # node
+    for nm in (S(''), S('r'), rep(255, 0x61), rep(256, 0x61)): A('node_name', ls(node(name=nm)))
+    for n in (65530, 65531, 65532): A('value_length_edge', ls(node(name=rep(n, 0x61))))
+    for k in range(6):
+        f = [0] * 6; f[k] = 1
+        A('node_flags', ls(node(flags=f)))
+    A('node_flags', ls(node(flags=[0] * 6))); A('node_flags', ls(node(flags=[1] * 6)))
+    for t in ('', '10.0.0.1', '255.255.255.255', '256.0.0.1', '10.0.0', 'x', '2001:db8::1', '10.0.0.01'): A('router_id_text', ls(node(rid=S(t)))); A('router_id_text', ls(None, link(lrid=S(t)))); A('router_id_text', ls(None, link(rrid=S(t))))
+    for t in ('', '2001:db8::1', '::', '::ffff:1.2.3.4', '10.0.0.1', '2001:db8::/32', 'g::1', '1:2:3:4:5:6:7:8:9'): A('router_id6_text', ls(node(rid6=S(t)))); A('router_id6_text', ls(None, link(lrid6=S(t)))); A('router_id6_text', ls(None, link(rrid6=S(t))))
+    for b in ([], [0x49], [0x49, 0, 1], rep(255, 7)): A('node_bytes', ls(node(area=b))); A('node_bytes', ls(node(opaque=b))); A('node_bytes', ls(node(algos=b)))
+    # SR ranges: begin / size on both sides of the 20-bit label and the 24-bit range size, inverted, none, several
+    RANGES = ([], [[16000, 23999]], [[0, 0]], [[U20, U20]], [[U20 + 1, U20 + 1]], [[0, U24 - 1]], [[0, U24]], [[0, U24 + 1]], [[1, U24]], [[0, U32MAX]], [[1, U32MAX]], [[U32MAX, U32MAX]],
+              [[10, 9]], [[10, 0]], [[100, 199], [300, 399]], [[U20, U20 + U24 - 1]], [[U20, U20 + U24]])
+    for r in RANGES:
+        A('sr_capability_ranges', ls(node(srcap=[1, 0, r]))); A('sr_local_block_ranges', ls(node(srlb=[r])))
+    for v4, v6 in ((0, 0), (1, 0), (0, 1), (1, 1)): A('sr_capability_flags', ls(node(srcap=[v4, v6, [[16000, 16999]]])))
+    # link
+    for v in (0, 1, 255, 256, 65535, 65536, U24, U24 + 1, U32MAX):
+        A('igp_metric_edge', ls(None, link(igp=v)))
+        A('delay_edge', ls(None, link(delay=v))); A('delay_edge', ls(None, link(dmin=v, dmax=v))); A('delay_edge', ls(None, link(var=v))); A('delay_edge', ls(None, link(delay=v, d_anom=1))); A('delay_edge', ls(None, link(dmin=1, dmax=v, mm_anom=1)))
+    for v in (0, 1, U20, U20 + 1, U24, U32MAX):
+        A('adjacency_sid_edge', ls(None, link(adj=v)))
+        A('prefix_sid_edge', ls(None, None, pfx(sid=v)))
+        for fl in (0, 0x80, 0x40, 0xff, 0x100, 0x180):
+            A('prefix_sid_edge', ls(None, None, pfx(sids=[[0, fl, v]])))
+        for vf in (0, 1):
+            A('peer_sid_edge', ls(None, None, None, [[[vf, 0, 0, 0], 10, v], [], []]))
+    for v in (0, 1, U32MAX): A('link_u32', ls(None, link(admin=v, te=v))); A('link_u32', ls(None, link(srlgs=[v, 1])))
+    A('link_u32', ls(None, link(bw=0x4b000000, rbw=0x7fc00000))); A('link_u32', ls(None, link(bw=0x80000000)))
+    for n in (0, 1, 7, 8, 9): A('unreserved_count', ls(None, link(unres=[0x4b000000 + i for i in range(n)])))
+    for nm in (S(''), S('eth0'), rep(256, 0x61)): A('link_name', ls(None, link(name=nm))); A('link_name', ls(None, link(opaque=nm)))
+    X = [48, 0, 0, 0, [S('2001:db8::1')], []]
+    A('endx', ls(None, link(endx=X))); A('endx', ls(None, link(endx=[48, 0, 0, 0, [], []]))); A('endx', ls(None, link(endx=[48, 0, 0, 0, [S('2001:db8::1'), S('2001:db8::2')], [40, 24, 16, 0]])))
+    for pos, vals in ((0, (0, 65535, 65536, U32MAX)), (1, (255, 256, U32MAX)), (2, (255, 256)), (3, (255, 256))):
+        for v in vals:
+            x = [list(e) if isinstance(e, list) else e for e in X]; x[pos] = v
+            A('endx_field_edge', ls(None, link(endx=x)))
+    for t in ('', 'x', '10.0.0.1', '2001:db8::/64'): A('endx_sid_text', ls(None, link(endx=[48, 0, 0, 0, [S('2001:db8::1'), S(t)], []])))
+    for pos in range(4):
+        for v in (0, 255, 256, U32MAX):
+            q = [40, 24, 16, 0]; q[pos] = v
+            A('endx_structure_edge', ls(None, link(endx=[48, 0, 0, 0, [S('2001:db8::1')], q])))
+    # BGP peer segment SIDs
+    for w in (0, 1, 255, 256, U32MAX):
+        for slot in range(3):
+            b = [[], [], []]; b[slot] = [[0, 1, 0, 0], w, 100]
+            A('peer_sid_weight', ls(None, None, None, b))
+    for k in range(4):
+        f = [0] * 4; f[k] = 1
+        A('peer_sid_flags', ls(None, None, None, [[f, 1, 100], [], []])); A('igp_flags', ls(None, None, pfx(flags=f)))
+    A('peer_sid_flags', ls(None, None, None, [[[], 1, 100], [[], 2, 200], [[], 3, 300]]))
+    # prefix
+    for a in (0, 1, 255, 256, U32MAX): A('prefix_sid_algorithm', ls(None, None, pfx(sids=[[a, 0, 100]])))
+    A('prefix_sids', ls(None, None, pfx(sids=[[0, 0x80, 100], [128, 0, 5]]))); A('prefix_sids', ls(None, None, pfx(sid=7, sids=[[0, 0x80, 100]]))); A('prefix_sids', ls(None, None, pfx(opaque=[1, 2, 3])))
+    A('all_parts', ls(node(name=S('r1'), flags=[1, 0, 0, 0, 1, 0], rid=S('10.0.0.1'), srcap=[1, 1, [[16000, 23999]]], algos=[0, 1], srlb=[[[15000, 15999]]]),
+                      link(name=S('e0'), lrid=S('10.0.0.1'), rrid=S('10.0.0.2'), admin=5, te=10, igp=20, bw=0x4b000000, adj=24001, srlgs=[1, 2], delay=100, dmin=50, dmax=150, var=5),
+                      pfx(flags=[0, 1, 0, 0], sids=[[0, 0x40, 7]]), [[[1, 1, 0, 0], 5, 24002], [], []]))
+    return o
+
+
+def gen_ls_case(rng):
+    e24 = lambda: rng.choice((0, 1, U24, U24 + 1, U32MAX)) if rng.random() < 0.2 else rng.randrange(100000)
+    e20 = lambda: rng.choice((0, U20, U20 + 1, U32MAX)) if rng.random() < 0.2 else rng.randrange(U20 + 1)
+    e8 = lambda: rng.choice((0, 255, 256)) if rng.random() < 0.15 else rng.randrange(256)
+    ip4 = lambda: S(rng.choice(('', '', '10.0.0.1', '192.0.2.7', 'bad', '300.1.1.1'))) if rng.random() < 0.5 else S('')
+    ip6 = lambda: S(rng.choice(('', '2001:db8::1', '::', 'bad', '10.0.0.1'))) if rng.random() < 0.4 else S('')
+    def ranges():
+        out = []
+        for _ in range(rng.randrange(3)):
+            b = e20(); out.append([b, rng.choice((b, b + 999, b + U24 - 1, b + U24, max(b, 1) - 1)) if b < 2 ** 31 else b])
+        return out
+    n = l = p = b = None
+    if rng.random() < 0.6:
+        n = node(name=S(rng.choice(('', 'r1'))), flags=[rng.randrange(2) for _ in range(6)] if rng.random() < 0.5 else [], rid=ip4(), rid6=ip6(),
+                 srcap=[rng.randrange(2), rng.randrange(2), ranges()] if rng.random() < 0.6 else [], algos=[0, 1] if rng.random() < 0.3 else [],
+                 srlb=[ranges()] if rng.random() < 0.4 else [])
+    if rng.random() < 0.6:
+        x = []
+        if rng.random() < 0.4:
+            x = [rng.choice((48, 65535, 65536)), e8(), e8(), e8(), [S(rng.choice(('2001:db8::1', '2001:db8::2', 'bad'))) if rng.random() < 0.9 else S('') for _ in range(rng.randrange(3))],
+                 [e8(), e8(), e8(), e8()] if rng.random() < 0.5 else []]
+        l = link(name=S(rng.choice(('', 'e0'))), lrid=ip4(), rrid=ip4(), lrid6=ip6(), rrid6=ip6(), admin=rng.randrange(4), te=rng.randrange(3), igp=e24(), adj=e20() if rng.random() < 0.5 else 0,
+                 unres=[0x4b000000] * rng.choice((0, 0, 8, 8, 3)), srlgs=[rng.randrange(10) for _ in range(rng.randrange(3))], endx=x, delay=e24() if rng.random() < 0.4 else 0, d_anom=rng.randrange(2),
+                 dmin=e24() if rng.random() < 0.3 else 0, dmax=e24() if rng.random() < 0.3 else 0, mm_anom=rng.randrange(2), var=e24() if rng.random() < 0.3 else 0)
+    if rng.random() < 0.5:
+        p = pfx(flags=[rng.randrange(2) for _ in range(4)] if rng.random() < 0.5 else [], sid=e20() if rng.random() < 0.4 else 0,
+                sids=[[e8(), rng.choice((0, 0x80, 0x40, 0xc0, 0x100)) if rng.random() < 0.8 else e8(), e20()] for _ in range(rng.randrange(3))])
+    if rng.random() < 0.4:
+        ps = lambda: [[rng.randrange(2) for _ in range(4)] if rng.random() < 0.8 else [], e8(), e20()] if rng.random() < 0.6 else []
+        b = [ps(), ps(), ps()]
+    return {'k': 9, 'w': 2, 'msg': ls(n, l, p, b, rng.choice((1, 2, 3)) if rng.random() < 0.04 else 0)}
+
+
 # ---------------------------------------------------------------- rendering for the Coq model
 from vp.val import cN, cZ, cbool, clist
 
@@ -402,7 +618,7 @@ def te_to_coq(msg):
     return 'run_api_te_case %s' % rlist(msg, lambda t: '(%s, %s)' % (cN(t[0]), rlist(t[1], sub_)))
 
 
-def typed_to_coq(c): return psid_to_coq(c['msg']) if c['w'] == 0 else te_to_coq(c['msg'])
+def typed_to_coq(c): return psid_to_coq(c['msg']) if c['w'] == 0 else te_to_coq(c['msg']) if c['w'] == 1 else '(VL [])'
 
 
 def ps_single_keys(msg):
@@ -418,6 +634,7 @@ def ps_single_keys(msg):
 
 def typed_canon(c, obs):
     """what is compared with the model: accepted, value octets, listing (PrefixSid maps of several keys: accepted only)"""
+    if c['w'] == 2: return []       # the LsAttribute message is not modelled: judged by the oracle only
     if obs == [-1] or not obs: return obs
     if obs[0] == 0: return [0]
     if c['w'] == 0 and not ps_single_keys(c['msg']): return [1]
